@@ -54,26 +54,42 @@ func (r *Run) newError(msg Value) Value {
 	return Iface{T: types.NewPointer(t), V: r.newObject(t, msg)}
 }
 
+// LazyStr is an error text that is only rendered if somebody reads it. Rendering never forks:
+// where the exact text would need a fork the text is poison (most error texts are never looked at).
+type LazyStr struct {
+	format string
+	ops    []Value
+	done   bool
+	val    Value
+}
+
+func (l *LazyStr) force(r *Run) Value {
+	if l.done {
+		return l.val
+	}
+	l.done = true
+	l.val = Poison{"error text not modelled"}
+	r.noFork++
+	defer func() {
+		r.noFork--
+		if rec := recover(); rec != nil {
+			if im, ok := rec.(imprecise); ok {
+				l.val = Poison{"error text not modelled (" + im.why + ")"}
+				return
+			}
+			panic(rec)
+		}
+	}()
+	bs, _ := r.sprintf(l.format, l.ops, fmtOpts{allowFork: false})
+	l.val = Str{bs}
+	return l.val
+}
+
 func (r *Run) errorf(args []Value) Value {
 	format := cstr(args[0])
 	ops := r.sliceArgs(args[1])
-	var msg Value
-	var wrapped []Value
-	func() {
-		defer func() {
-			if rec := recover(); rec != nil {
-				if im, ok := rec.(imprecise); ok {
-					msg = Poison{"error text not modelled (" + im.why + ")"}
-					// still find the %w operands
-					wrapped = wrappedOperands(format, ops)
-					return
-				}
-				panic(rec)
-			}
-		}()
-		bs, w := r.sprintf(format, ops, fmtOpts{allowFork: false})
-		msg, wrapped = Str{bs}, w
-	}()
+	var msg Value = &LazyStr{format: format, ops: ops}
+	wrapped := wrappedOperands(format, ops)
 	switch len(wrapped) {
 	case 0:
 		return r.newError(msg)
